@@ -113,9 +113,60 @@ def gen_chain_debt_cases(rng, N, modes=(False, True), viz_share=0.2):
     return out
 
 
+def gen_huge_bundle_cases(rng, N, modes=(False, True)):
+    """edge bundles and chip counts far beyond double precision (2^53..2^60); divisors are built as
+    E - L*s from a small effective E and a small script s (or one chip short of that), so the runs
+    stay short while every intermediate number is huge"""
+    out = []
+    for _ in range(N):
+        n = rng.randint(3, 4)
+        E = {}
+        perm = list(range(n))
+        rng.shuffle(perm)
+        for i in range(1, n):
+            a, b = perm[rng.randrange(i)], perm[i]
+            E[(min(a, b), max(a, b))] = 2 ** rng.randint(53, 60) + rng.randint(1, 9)
+        if rng.random() < 0.7:
+            a, b = rng.sample(range(n), 2)
+            E[(min(a, b), max(a, b))] = E.get((min(a, b), max(a, b)), 0) + 2 ** rng.randint(50, 58) + rng.randint(0, 5)
+        eff = [rng.randint(0, 3) for _ in range(n)]
+        if rng.random() < 0.5:
+            eff[rng.randrange(n)] -= 1          # possibly one chip short
+        d = genhist.apply_script(n, E, eff, [rng.randint(-2, 2) for _ in range(n)])
+        g = {"n": n, "edges": gen.present_edges(rng, E, split=False), "_kind": "hugebundle", "_genus": gen.genus_of(n, E)}
+        for opt in modes:
+            sc = dict(g)
+            sc.update(op="ewd", deg=d, opt=opt, viz=False, _band=gen.band_of(sum(d), g["_genus"]), _debt="huge")
+            out.append(sc)
+    return out
+
+
+def gen_long_run_cases(rng, N, modes=(False,)):
+    """a large pile of chips far from the sink over thin edges: thousands of firing rounds"""
+    out = []
+    for _ in range(N):
+        n = rng.choice([2, 2, 3])
+        E = {(i, i + 1): 1 for i in range(n - 1)}
+        if n == 2:
+            d = [-1, rng.randint(900, 2600)]
+        else:
+            d = [-1, 0, rng.randint(500, 1100)]
+        if rng.random() < 0.5:
+            d.reverse()
+            E = {(n - 2 - i, n - 1 - i): 1 for i in range(n - 1)}
+        g = {"n": n, "edges": gen.present_edges(rng, E, split=False), "_kind": "longrun", "_genus": 0}
+        for opt in modes:
+            sc = dict(g)
+            sc.update(op="ewd", deg=d, opt=opt, viz=False, _band="high", _debt="pile", timeout=120)
+            out.append(sc)
+    return out
+
+
 def c01_generate(rng, tier):
     scns = gen_ewd_cases(rng, count(tier, 250, 4000), nmax=count(tier, 6, 8))
     scns += gen_chain_debt_cases(rng, count(tier, 100, 2000))
+    scns += gen_huge_bundle_cases(rng, count(tier, 60, 600))
+    scns += gen_long_run_cases(rng, count(tier, 6, 40))
     for s in scns:
         s["_cmp"] = ["verdict"]
     # the wrappers, and the same question asked again after the graph object changed
@@ -348,6 +399,7 @@ PROPS["C08"] = {"generate": c08_generate, "strata": algo_strata, "nontrivial": a
 def c09_generate(rng, tier):
     a = gen_ewd_cases(rng, count(tier, 300, 4000), nmax=count(tier, 6, 8), viz_share=0.1)
     a += gen_chain_debt_cases(rng, count(tier, 60, 1000))
+    a += gen_long_run_cases(rng, count(tier, 6, 40))
     return tag_cmp(a, ["orient", "indeg", "outdeg", "full", "verdict"])
 
 
@@ -447,6 +499,11 @@ def c17_generate(rng, tier):
         n = g["n"]
         kind = rng.choice(["ewd", "ewd", "api", "rank", "gonality", "lin_equiv"])
         d, band, debt = gen.gen_divisor(rng, n, g["_genus"], mag=3, debt=rng.choice(["tiemin", "tiemin", "any", "heavy"]))
+        if rng.random() < 0.25:
+            # every vertex holds chips, unique minimum somewhere
+            d = [rng.randint(2, 5) for _ in range(n)]
+            d[rng.randrange(n)] = 1
+            debt = "allpositive"
         if kind == "rank" and sum(d) > 5:
             d[rng.randrange(n)] -= sum(d) - 5
         d2 = genhist.apply_script(n, E, d, genhist.random_script(rng, n)) if rng.random() < 0.5 else [x + rng.choice([0, 0, 1, -1]) for x in d]
